@@ -993,6 +993,27 @@ def transpose(interp, x, axes=None):
     if axes is None or axes.kind == "none":
         if sh is not None and len(sh) < 2:
             return x
+        if sh is not None and len(sh) == 2 and isinstance(x.term, Term) and hasattr(interp, "vtab"):
+            t_ = x.term
+            def known2(p_):
+                return p_ is not None and p_.kind == "arr" and shape(p_) is not None and len(shape(p_)) == 2
+            if t_.op in ("add", "sub") and len(t_.args) == 2:
+                # (A + b)^T = A^T + b^T, operand by operand (a column b becomes a row: a re-labelling of its axis)
+                pa, pb = interp.vtab.get(t_.args[0]), interp.vtab.get(t_.args[1])
+                if known2(pa) and known2(pb) and shape(pa) != shape(pb):
+                    return A.binop(interp, t_.op, transpose(interp, pa), transpose(interp, pb), None, None)
+            if t_.op == "neg" and len(t_.args) == 1:
+                pa = interp.vtab.get(t_.args[0])
+                if known2(pa) and isinstance(pa.term, Term) and pa.term.op in ("add", "sub", "neg", "matmul"):
+                    inner = transpose(interp, pa)
+                    return fresh_arr(T("neg", inner.term), shape(inner), inner.labels)
+            if t_.op == "matmul" and len(t_.args) == 2 and isinstance(t_.args[0], Term) and t_.args[0].op == "dg":
+                # (dg(v) @ M)^T = M^T @ dg(v): rows scaled become columns scaled
+                pm = interp.vtab.get(t_.args[1])
+                if known2(pm):
+                    mt = transpose(interp, pm)
+                    r = fresh_arr(T("matmul", mt.term, t_.args[0]), shape(mt), x.labels)
+                    return r
         if sh is not None and len(sh) == 2 and any(d.is_const() and d.c == 1 for d in sh):
             # transposing a single row / column only re-labels the axes
             from .api_numpy import shape_terms as _st
@@ -1366,6 +1387,32 @@ def sp_procrustes(interp, name, args, kw, st, node):
 def sk_svd_flip(interp, name, args, kw, st, node):
     u, v = arrv(args[0]), arrv(args[1])
     return interp.mk_tuple([fresh_arr(T("svd_flip_u", u.term, v.term), shape(u), u.labels | v.labels), fresh_arr(T("svd_flip_v", u.term, v.term), shape(v), u.labels | v.labels)])
+
+
+@reg("numpy.logaddexp")
+def np_logaddexp(interp, name, args, kw, st, node):
+    # log(exp(a) + exp(b)): the log-sum-exp of the two values
+    a_, b_ = args[0], args[1]
+    sa_, sb_ = shape(arrv(a_)), shape(arrv(b_))
+    if sa_ == () and sb_ == ():
+        return V("arr", T("lse", T("list", a_.term, b_.term)), shape=(), labels=a_.labels | b_.labels, orig=frozenset([FRESH]), loc=fresh_id())
+    return fresh_arr(T("logaddexp", arrv(a_).term, arrv(b_).term), A.broadcast(interp, sa_, sb_, st, node, what="logaddexp"), a_.labels | b_.labels)
+
+
+@reg("numpy.append")
+def np_append(interp, name, args, kw, st, node):
+    b = bind(["arr", "values", "axis"], args, kw)
+    x, v = arrv(b["arr"]), b["values"]
+    if b.get("axis") is None or b["axis"].kind == "none":
+        # without an axis both operands are flattened and joined
+        vv = arrv(v)
+        sv, sx = shape(vv), shape(x)
+        tot = None
+        if sx is not None and sv is not None and len(sx) == 1 and len(sv) <= 1:
+            tot = (sx[0] + (sv[0] if sv else Dim(1)),)
+        vt = T("list", vv.term) if sv == () else vv.term
+        return fresh_arr(T("stack", const(0), x.term, vt), tot or (Dim.unknown("append"),), x.labels | vv.labels)
+    return fresh_arr(callterm(name, args, kw), None, _L(*args, *kw.values()))
 
 
 @reg("scipy.special.logsumexp")
